@@ -90,6 +90,8 @@ class Ctl:
         self.nested = []  # seam calls made from inside a callback (kept apart from the history that is judged)
         self.ncount = {}
         self.callbacks = []  # (kind, outcome) of every callback performed
+        self.nested_raised = []
+        self.nested_calls = []  # solves made by callbacks on this very object, each with what is needed to judge it
 
     def arm(self, plan, bus=None, tag=None):
         self.plan = plan or {}
@@ -102,6 +104,8 @@ class Ctl:
         self.nested = []
         self.ncount = {}
         self.callbacks = []
+        self.nested_raised = []
+        self.nested_calls = []
 
     def __deepcopy__(self, memo):
         return Ctl()
@@ -214,7 +218,19 @@ def _hook_action(self, t, act):
     raise AssertionError(kind)
 
 
-def _callback(self, t, tn, cb, ctl):
+QUIET = {'min_iter': 0, 'max_iter': 2, 'tol': 1.0, 'offset': 0, 'failures': 'ignore', 'errors': 'ignore', 'catch_first_error': True}
+
+
+def _satellite():
+    """Another tracer-extended model altogether (its own variable names), as a hook might solve alongside."""
+    import fsic
+    from fsic.extensions import TracerMixin
+
+    Sat = type('Satellite', (TracerMixin, fsic.BaseModel), {'ENDOGENOUS': ['S'], 'EXOGENOUS': [], 'NAMES': ['S'], 'CHECK': ['S'], '_evaluate': lambda self, t, **kw: None})
+    return Sat(range(3))
+
+
+def _callback(self, t, tn, cb, ctl, kw=None):
     """User code that calls back into the library while the library is calling it (a hook or an equation that copies the
     model, evaluates an expression, exports a table, solves another period or another model, makes a call that is
     refused...). Whatever the callback's own outcome, it is the user's; what is judged is the operation under way."""
@@ -252,8 +268,58 @@ def _callback(self, t, tn, cb, ctl):
             else:
                 self.solve_t(n + 3)
         elif what == 'nested_solve':
-            if cb['tn2'] != tn and 0 <= cb['tn2'] < n:
-                self.solve_t(cb['tn2'], **quiet)  # another period of the same model
+            tn2 = cb.get('tn2')
+            if cb.get('rel') is not None:
+                tn2 = tn + cb['rel']  # (a neighbouring period, e.g. the one just solved)
+                if not (getattr(self, 'lags', 0) <= tn2 < n - getattr(self, 'leads', 0)):
+                    tn2 = None
+            if tn2 is not None and tn2 != tn and 0 <= tn2 < n:
+                # another period of the same model, solved from inside this period's solve; judged on its own afterwards
+                snap_ = {nm: d['_' + nm].copy() for nm in d['index']}
+                n0, r0 = len(ctl.nested), len(ctl.nested_raised)
+                try:
+                    out_ = {'kind': 'return', 'value': self.solve_t(tn2, **quiet)}
+                except SimInterrupt:
+                    raise
+                except Exception as e_:
+                    out_ = {'kind': 'raise', 'exc': e_}
+                    res = type(e_).__name__
+                ctl.nested_calls.append({'t': tn2, 'opts': dict(QUIET), 'snap': snap_, 'post': {nm: d['_' + nm].copy() for nm in d['index']}, 'log': ctl.nested[n0:], 'raised': ctl.nested_raised[r0:], 'outcome': out_})
+        elif what == 'rebind':
+            # a whole series replaced by an equal list: the container stores a new array under the same name, and
+            # whoever is half-way through an operation must go on reading and writing by name
+            names_ = [x for x in cb.get('names', []) if x in d['index']]
+            for nm in names_:
+                if cb.get('via') == 'replace_values':
+                    self.replace_values(**{nm: d['_' + nm].tolist()})
+                elif cb.get('via') == 'item':
+                    self[nm] = d['_' + nm].tolist()
+                else:
+                    setattr(self, nm, d['_' + nm].tolist())
+        elif what == 'forward':
+            # the hook passes the keywords it was given on to another model
+            sat = _satellite()
+            sat.solve_t(0, trace=(kw or {}).get('trace'), **quiet)
+        elif what == 'label_probe':
+            # label access from inside a hook: the labels mean what they mean outside one
+            nm = d['index'][cb.get('v', 0) % len(d['index'])]
+            arr = d['_' + nm]
+            sp = d['span']
+            a_, b_ = sorted((cb.get('a', 0) % n, tn))
+            labs_ = [repr(x) for x in sp]
+            probes_ = [] if len(set(labs_)) != len(labs_) else [
+                ('get-label', lambda: self[nm, sp[tn]], lambda: arr[tn]),
+                ('slice-to-current', lambda: self[nm, : sp[tn]], lambda: arr[: tn + 1]),
+                ('slice-from-current', lambda: self[nm, sp[tn] :], lambda: arr[tn:]),
+                ('slice-a-b', lambda: self[nm, sp[a_] : sp[b_]], lambda: arr[a_ : b_ + 1]),
+                ('slice-stepped', lambda: self[nm, sp[a_] : sp[b_] : 2], lambda: arr[a_ : b_ + 1 : 2]),
+            ]
+            for name_, got_, want_ in probes_:
+                g_, w_ = np.asarray(got_()), np.asarray(want_())
+                same_ = g_.shape == w_.shape and all(str(x) == str(y) for x, y in zip(g_.ravel().tolist(), w_.ravel().tolist()))
+                if not same_:
+                    res = 'MISMATCH:' + name_
+                    break
         elif what == 'add_variable':
             nm = 'CB%d' % len([x for x in d['index'] if x.startswith('CB')])
             self.add_variable(nm, 0.0)
@@ -298,14 +364,19 @@ def make_scripted(fsic, spec, bases=None, extra_attrs=None):
         key = f'{hook}:{tn}'
         if ctl.depth:
             # user code (a scripted callback) has called back into the library and the library is calling user code
-            # again: these seam calls are not part of the history being judged
+            # again: these seam calls are kept apart from the history of the operation under way (and judged on their
+            # own where the callback solved another period of this object)
             k = ctl.ncount[key] = ctl.ncount.get(key, 0) + 1
-            ctl.nested.append((hook, int(tn), k, kw.get('iteration')))
+            d_ = self.__dict__
+            nrec = {'hook': hook, 't': int(t), 'tn': int(tn), 'k': k, 'iteration': kw.get('iteration'), 'kw': sorted(kw), 'errors': kw.get('errors'), 'cfe': kw.get('catch_first_error'),
+                    'pre': [num(d_['_' + nm][t]) for nm in endo], 'pre_all': None, 'filter': _filter_mode(), 'exc': None, 'act': 'half' if hook == 'eval' else 'noop'}
+            ctl.nested.append(nrec)
             if hook == 'eval':
-                d_ = self.__dict__
                 for nm in endo:
                     if d_['_' + nm].dtype.kind == 'f':
                         d_['_' + nm][t] = d_['_' + nm][t] / 2.0 + 0.25  # a contraction: the nested solve goes somewhere
+            nrec['post_endo'] = [num(d_['_' + nm][t]) for nm in endo]
+            nrec['post'] = [num(d_['_' + nm][t]) for nm in check]
             return
         k = ctl.count[key] = ctl.count.get(key, 0) + 1
         d = self.__dict__
@@ -336,7 +407,7 @@ def make_scripted(fsic, spec, bases=None, extra_attrs=None):
         try:
             for cb in cbs:
                 if cb.get('when', 'pre') == 'pre':
-                    _callback(self, t, tn, cb, ctl)
+                    _callback(self, t, tn, cb, ctl, kw)
             if hook == 'eval':
                 passes = p.get('passes', [])
                 act = passes[k - 1] if k - 1 < len(passes) else p.get('default', {'a': 'delta', 'd': [0.0] * len(endo)})
@@ -350,7 +421,7 @@ def make_scripted(fsic, spec, bases=None, extra_attrs=None):
                 _hook_action(self, t, act)
             for cb in cbs:
                 if cb.get('when', 'pre') == 'post':
-                    _callback(self, t, tn, cb, ctl)
+                    _callback(self, t, tn, cb, ctl, kw)
         except BaseException as e:
             rec['exc'] = type(e).__name__
             ctl.raised.append(e)
